@@ -22,7 +22,7 @@ ASSUMPTIONS = c01.ASSUMPTIONS + [
     "connection size = length of the connected data item including its 2-byte sequence count (CIP Vol 1 3-5.5.1.1)",
     "a plain Read Tag returns everything that fits; only Read Tag Fragmented replies are shortened by the drawn reply capacity",
 ]
-FLOORS = {"quick": {"sweep": 5000, "fragmented-read": 1000, "fragmented-write": 1000, "random": 1000},
+FLOORS = {"quick": {"sweep": 5000, "fragmented-read": 1000, "fragmented-write": 1000, "random": 1000, "chunked-transfer": 80},
           "thorough": {"sweep": 90000, "random": 20000}}
 
 ELEMS = [("SINT", 1), ("INT", 2), ("DINT", 4), ("LINT", 8), ("STR", 8), ("UDT", 12)]
@@ -133,6 +133,8 @@ def plan(tier):
         jobs.append({"part": "random", "op": "read" if i % 2 else "write", "examples": per})
     for i in range(6):
         jobs.append({"part": "random", "op": "read" if i % 2 else "write", "packing": True, "examples": per // 3})
+    for i in range(4 if tier == "quick" else 16):
+        jobs.append({"part": "random", "op": "read" if i % 4 == 3 else "write", "chunked": True, "examples": per // 2})
     return jobs
 
 
@@ -156,9 +158,16 @@ def run_job(ctx, job):
         p = run.p
         conn = 4000 if case["cfg"]["fo_policy"] == "large" else 500
         nt = any(abs(p.tag_size(t) - c_) <= 48 or p.tag_size(t) > c_ for t in case["pd"]["tags"] for c_ in (conn,))
-        return discs, nt, ["random"] + sorted(run.classes)
+        big = {}
+        for r in case["reqs"]:
+            t = p.tags.get((r.get("scope"), r["tag"]))
+            if t is not None and not r.get("invalid") and not r.get("path") and (r.get("count") or 1) * p.elem_size(t["type"]) > conn:
+                big[(r.get("scope"), r["tag"])] = big.get((r.get("scope"), r["tag"]), 0) + 1
+        extra = ["chunked-transfer"] if any(v >= 2 for v in big.values()) else []
+        return discs, nt, ["random"] + sorted(run.classes) + extra
 
-    hyp_search(ctx, "case", c01.cases(job["op"], many=True, size_bias=["window", "window", "huge", "medium", "small", "scalar"], packing=job.get("packing", False)),
+    hyp_search(ctx, "case", c01.cases(job["op"], many=True, size_bias=["window", "window", "huge", "medium", "small", "scalar"], packing=job.get("packing", False),
+                                      chunked=job.get("chunked", False)),
                check_case, job["examples"], sample_of=c01.sample_of)
 
 
